@@ -743,6 +743,53 @@ def casefold_rule(rep, mods):
             raise AnalysisBroken('%s: no returned difference found' % name)
 
 
+def case_map_rule(rep, mods):
+    """R-CASEMAP: strupr / strlwr map every byte of the string by the ASCII case function and leave the others alone.  The
+    loop treats every position alike, so the byte function is decided on a string of length 1 whose byte ranges over one
+    whole class per case (interval partition: a range test that is off by one leaves the class undecided): lower-case
+    letters, upper-case letters, everything below, between and above."""
+    for name, src, delta in (('strupr', (97, 122), -32), ('strlwr', (65, 90), 32)):
+        mod = mods[name]
+        ext = dict(LIBC_EXT)
+        ext.pop(name, None)
+        it = Interp(mod, externals=ext)
+        box = {}
+
+        def setup(run, st, env, names, args, sps, box=box):
+            o = st.new_obj('param', Lin(2), 'arg0', {'desc': 'C string of one character', 'cstr_len': Lin(1)})
+            b = st.fresh_int(8, False, 'ch0')
+            st.cons.add_le(1, b.u)
+            st.conv[('cstrbyte', o.id, Lin(0).key())] = b
+            env.bind('ch0', b.u)
+            args[0] = PtrVal(o.id, Lin(0))
+            box['obj'] = o.id
+            st.ghost['out0'] = b.u
+            st.ghost['other'] = 0
+
+        def hook(interp, st, inst, p, v, box=box):
+            if isinstance(p, PtrVal) and p.obj == box.get('obj') and isinstance(v, IntVal):
+                if st.cons.entails_eq(p.off, 0):
+                    st.ghost['out0'] = st.force_u(v)
+                else:
+                    st.ghost['other'] = st.ghost.get('other', 0) + 1
+        it.store_hook = hook
+        lo, hi = src
+        classes = [('below', 1, lo - 1, 0), ('mapped-letters', lo, hi, delta), ('above', hi + 1, 255, 0)]
+        posts = [dict(name='%s:%d..%d' % (k, a, b), when=['ch0 >= %d' % a, 'ch0 <= %d' % b],
+                      then=['ghost_out0 == ch0 + %d' % d if d else 'ghost_out0 == ch0', 'ghost_other == 0'])
+                 for (k, a, b, d) in classes]
+        run = ContractRun(it, [])
+        run.run(name, FnSpec(setup=setup, post=posts))
+        obs = summarize(it, run)
+        for o in obs:
+            if o.get('call_stack'):
+                o['root'] = name
+                o['leaf'] = o['function']
+            else:
+                o['function'] = name
+        rep.add_absint('R-CASEMAP', [o for o in obs if o['kind'] == 'post'])
+
+
 def run(rep, repo, tier):
     rep.explanation = (
         'Every mem*/str* function of compat/libc/string is analysed by abstract interpretation under its ISO C / POSIX '
@@ -795,6 +842,8 @@ def run(rep, repo, tier):
     uchar_rule(rep, mods)
     byte_eq_rule(rep, mods)
     casefold_rule(rep, mods)
+    case_map_rule(rep, mods)
+    rep.floor('R-CASEMAP:post', 10)
     rep.floor('R-CASEFOLD', 2)
     rep.floor('R-LIBC:bounds', 40)
     rep.floor('R-LIBC:post', 30)
